@@ -20,7 +20,7 @@ FUNCTIONS = ["DataFrameToFlodymDataConverter._check_data_complete", "DataFrameTo
 ASSUMPTIONS = ["no cell value truncates to a numeric item of a dimension (value/item confusion is explored by C11)", "cell values pairwise different for frames with more than 4 cells", "file parsing is outside: pd.read_csv / pd.read_excel are replaced by a stub returning the prepared frame (the readers' flag forwarding and the call into from_df are inside)",
                "no cell value truncates to a numeric item of a dimension for frames with more than 4 cells"]
 OUTSIDE = ["CSV / Excel text parsing", "more than two simultaneous faults", "frames with more than 6 rows"]
-VARIANTS = 'labels stored as text in an integer dimension; row labels as pd.concat leaves them; falsy unknown labels; readers through CompoundDataReader.read_parameters'
+VARIANTS = 'labels stored as text in an integer dimension; row labels as pd.concat leaves them; falsy unknown labels; readers through CompoundDataReader.read_parameters; an ignored row without a value'
 BOUNDS = {"quick": dict(dimsets=["r2", "T2_r2", "r2_p3u", "s1_r2_p2"], layouts="long (columns / index) and wide", faults="every single fault at every position; every pair on frames <= 4 rows",
                         flags="all four combinations"),
           "thorough": dict(dimsets=["r2", "t2i", "T2_r2", "r2_p3u", "s1_r2_p2", "T2_r2_p2"], layouts="as quick", faults="every single fault and every pair at every position (frames <= 8 rows)", flags="all four combinations")}
